@@ -3,7 +3,7 @@
    Model: Model/Vm.v [tcall_frame] (run.rs:204-235), [enter_frame] (run.rs:237-265),
    Model/Compile.v, and the GENERATED prelude (Gen/Prelude.v) for the derived forms. *)
 From MW Require Import Model.Base Model.Datum Model.VmTypes Model.Heap Model.VmBase Model.Compile Model.Vm
-  Model.Builtins Proofs.TailProofs Proofs.DerivedTail.
+  Model.Builtins Proofs.TailProofs Proofs.DerivedTail Proofs.VarArgProofs.
 Open Scope N_scope.
 
 (* A procedure invoked with n arguments at base pointer bp owns the slots
@@ -53,3 +53,127 @@ Theorem C04_derived_tail : forall s1 sk sj form,
   prepare = Some (s1, sk, sj) -> In form all_forms -> check_form s1 sk sj form = true.
 Proof. exact derived_tail. Qed.
 Print Assumptions C04_derived_tail.
+
+(* ------------------------------------------------------------------------------------
+   VARIADIC procedures (work package c19b).  (lambda args ..) /\
+ (lambda (a . rest) ..) compile
+   to  VARARG ; ENTER ; body ; RET  (Model/Compile.v compile_lambda): VARARG runs BEFORE
+   ENTER on the frame CALL /\
+ TCALL left.  [vararg_frame] (Proofs/VarArgProofs.v) is the VARARG
+   arm of Vm.run_one verbatim: *)
+Theorem C04_vararg_is_the_instruction : forall ob s s0,
+  read_opcode s = ROk OVarArg s0 -> run_one ob s = vararg_frame s0.
+Proof. exact run_one_vararg. Qed.
+Print Assumptions C04_vararg_is_the_instruction.
+
+(* VARARG on a frame with m actual arguments, for a lambda with L formals INCLUDING the rest
+   parameter (L - 1 <= m): whatever m (both arms of run.rs:296-323: one optional argument is
+   converted in place; otherwise Ip, Ep, Argc and the m-(L-1) optional arguments are popped,
+   collected into a heap list, and the list, Argc L, Ep, Ip are pushed) the frame stays on the
+   same base, the fixed arguments and everything below are untouched, slot base+L holds a
+   pointer (the rest list), and sp = base + L + 3: a function of L only.  No register other
+   than sp changes (only the stack above the fixed arguments and the heap). *)
+Theorem C04_vararg_frame : forall s l m,
+  cur_lambda s = ROk l s ->
+  1 <= len (l_args l) -> len (l_args l) - 1 <= m ->
+  m + 3 <= sp s -> sget s (sp s - 2) = VArgc m ->
+  sp s + 1 < scap s ->
+  let L := len (l_args l) in
+  let base := sp s - 3 - m in
+  exists p s',
+    vararg_frame s = ROk false s' /\
+    sp s' = base + L + 3 /\ same_regs s s' /\
+    (forall j, j + 1 <= base + L -> sget s' j = sget s j) /\
+    sget s' (base + L) = VPtr p /\
+    sget s' (base + L + 1) = VArgc L /\
+    sget s' (base + L + 2) = sget s (sp s - 1) /\
+    sget s' (base + L + 3) = sget s (sp s).
+Proof. exact vararg_frame_effect. Qed.
+Print Assumptions C04_vararg_frame.
+
+(* A tail call to a variadic procedure: TCALL ; VARARG ; ENTER (k1, k2: the instruction
+   indices, immaterial).  From a frame [frame_at s n e i b] with m new arguments on top, the
+   three instructions re-establish the frame invariant with n := L, the SAME return
+   information (e, i, b) and the SAME base bp - n; sp = base + L + 4.  Neither m nor the
+   caller's n nor the number of earlier iterations appears in the height: by induction a loop
+   of variadic (self-)tail-calls runs in constant stack space.  The first L-1 arguments are
+   the fixed parameters; slot base+L is the rest list; the stack at or below the base is
+   untouched. *)
+Theorem C04_tcall_vararg_enter : forall lam lid l s n e i b m k1 k2,
+  frame_at s n e i b ->
+  sget s (sp s) = VArgc m -> bp s + 4 + m < sp s -> sp s < scap s ->
+  heap_get (hp s) lam = Ok (VLambda lid) -> tget (lams (st s)) lid = Some l ->
+  1 <= len (l_args l) -> len (l_args l) - 1 <= m ->
+  let L := len (l_args l) in
+  let base := bp s - n in
+  exists s1 s2,
+    tcall_frame lam s = ROk false s1 /\
+    vararg_frame (with_ip s1 (lam, k1)) = ROk false s2 /\
+    sp s2 = base + L + 3 /\
+    (forall j, j + 1 < L -> sget s2 (base + 1 + j) = sget s (sp s - m + j)) /\
+    (exists p, sget s2 (base + L) = VPtr p) /\
+    (forall j, j <= base -> sget s2 j = sget s j) /\
+    (forall r s3, enter_frame (with_ip s2 (lam, k2)) = ROk r s3 ->
+       frame_at s3 L e i b /\ bp s3 - L = base /\ sp s3 = base + L + 4).
+Proof. exact tcall_vararg_enter. Qed.
+Print Assumptions C04_tcall_vararg_enter.
+
+(* the same invariant for a fixed-arity callee (TCALL ; ENTER), which the two theorems at the
+   top of this file give only in pieces *)
+Theorem C04_tcall_enter_invariant : forall lam s n e i b m k,
+  frame_at s n e i b ->
+  sget s (sp s) = VArgc m -> bp s + 4 + m < sp s -> sp s < scap s ->
+  let base := bp s - n in
+  exists s1, tcall_frame lam s = ROk false s1 /\
+    (forall r s2, enter_frame (with_ip s1 (lam, k)) = ROk r s2 ->
+       frame_at s2 m e i b /\ bp s2 - m = base /\ sp s2 = base + m + 4).
+Proof. exact tcall_enter_invariant. Qed.
+Print Assumptions C04_tcall_enter_invariant.
+
+(* Non-vacuity: a machine holding a variadic lambda with L = 2 formals (a . rest), a current
+   frame with n = 2 arguments at bp = 2 (base 0) and m new arguments on top.  For m = 1
+   (no optional argument), m = 2 (one: in place) and m = 3, 5 (general arm) the hypotheses
+   hold, ENTER succeeds, and the frame ends at sp = 6, bp = 2 every time. *)
+Definition ex_vararg_lambda : lambda :=
+  emit_op (emit_op (emit_op (mk_lambda false true [] [VPtr 0; VPtr 0] [] None) OVarArg) OEnter) ORet.
+Definition ex_vararg_state (args : list vcell) : option (N * vm) :=
+  match put_lambda ex_vararg_lambda (vm_empty 64) with
+  | ROk (VPtr lp) s0 =>
+      let m := len args in
+      let stk := write_slots ([VBool true; VBool false; VArgc 2; VEp 7; VIp 9 4; VBp 0; VChar 120] ++ args ++ [VArgc m])
+                             1 tempty in
+      Some (lp, with_acc (with_bp (with_stack s0 stk (8 + m)) 2) (VPtr lp))
+  | _ => None
+  end.
+Definition ex_vararg_check (args : list vcell) : Prop :=
+  match ex_vararg_state args with
+  | Some (lam, s) =>
+      frame_at s 2 7 (9, 4) 0 /\ sget s (sp s) = VArgc (len args) /\
+      bp s + 4 + len args < sp s /\ sp s < scap s /\
+      (exists lid l, heap_get (hp s) lam = Ok (VLambda lid) /\ tget (lams (st s)) lid = Some l /\
+                     len (l_args l) = 2) /\
+      match tcall_frame lam s with
+      | ROk _ s1 =>
+          match vararg_frame (with_ip s1 (lam, 1)) with
+          | ROk _ s2 =>
+              match enter_frame (with_ip s2 (lam, 2)) with
+              | ROk _ s3 => sp s3 = 6 /\ bp s3 = 2 /\ frame_at s3 2 7 (9, 4) 0
+              | _ => False
+              end
+          | _ => False
+          end
+      | _ => False
+      end
+  | None => False
+  end.
+Ltac ex_vararg_solve :=
+  vm_compute; repeat split; try reflexivity; try (let X := fresh in intro X; discriminate X);
+  do 2 eexists; repeat split.
+Example vararg_loop_no_optional : ex_vararg_check [VChar 97].
+Proof. ex_vararg_solve. Qed.
+Example vararg_loop_one_optional : ex_vararg_check [VChar 97; VChar 98].
+Proof. ex_vararg_solve. Qed.
+Example vararg_loop_two_optional : ex_vararg_check [VChar 97; VChar 98; VChar 99].
+Proof. ex_vararg_solve. Qed.
+Example vararg_loop_four_optional : ex_vararg_check [VChar 97; VChar 98; VChar 99; VChar 100; VChar 101].
+Proof. ex_vararg_solve. Qed.
